@@ -7,8 +7,8 @@ import conc
 import driver
 
 PROPERTIES_FILE = "Properties/Properties_C10.v"
-COQ_DEPS = ["Proofs/Apply_proofs.vo", "Proofs/ApplyR_proofs.vo"]
-GEN_MODULES = ["Gen_apply"]
+COQ_DEPS = ["Proofs/Apply_proofs.vo", "Proofs/ApplyR_proofs.vo", "Proofs/ApplyRoot_proofs.vo"]
+GEN_MODULES = ["Gen_apply", "Gen_rootq"]
 LEVEL = "proof"
 TRUSTED = [
     "Model/Apply.v is hand-written control flow around generated pieces (the whole of _dispatch_queue_try_reserve_apply_width, "
@@ -20,8 +20,22 @@ TRUSTED = [
     "da_event, da_thr_cnt with the values seen) must be accepted by Apply.tstep",
     "atomicity: each os_atomic_* operation is one step; sequentially consistent interleaving (memory orders are compared with "
     "the source through the site lists, their strength is the subject of C05)",
-    "each helper continuation pushed by _dispatch_apply_f is invoked at most once (C01); a participant = one run of "
-    "_dispatch_apply_invoke2; the work function returns; nested applies are separate instances of the same model on their own record",
+    "the model lets a participant enter invoke2 only while fewer than T have entered, i.e. each of the T-1 helper continuations "
+    "pushed by _dispatch_apply_f is invoked at most once. Discharged by the root-queue model: C01_root_pop_unique "
+    "(Properties_C01_root.v: the k-th dequeue is the k-th push, no double dequeue) + C10_helper_batch_push_is_rootq_run "
+    "(Proofs/ApplyRoot_proofs.v): RootQ models single-item pushes while dispatch_apply pushes its T-1 continuations as one "
+    "pre-linked batch (one tail exchange, one link store); the theorem shows both shared states of the batch push are reachable "
+    "RootQ states (T-1 single pushes back to back, the first pusher's link store last) with the same list / chain / push history, "
+    "so the limit does not matter for at-most-once. Not carried over: the batch's poke (one request for T-1 workers), which only "
+    "affects how many helpers wake (no C10 theorem needs a helper to run); still trusted: the worker that dequeued a "
+    "continuation calls it once (_dispatch_continuation_pop), and the replay checks on every recorded round that at most T "
+    "runs of invoke2 touch a record",
+    "a participant = one run of _dispatch_apply_invoke2; the work function returns; nested applies are separate instances of the "
+    "same model on their own record",
+    "global tie: every recorded round (all participants of one dispatch_apply) is replayed as a run of Apply.gstep itself "
+    "(Model/ApplyR.v: sched takes an action only if enabled in the model with the recorded outcome; C10_replay_reach), the order "
+    "comes from the recorder's stamps made consistent with the exact chains of da_index / da_todo / da_thr_cnt / the event word; "
+    "a wrong order can only make a replay fail; the executable invariant inv_b (C10_inv_b_reach) is evaluated on the states passed",
     "the width theorem is about one apply on an otherwise quiescent chain (no concurrent change of the dq_state words between "
     "the reservation and the relinquish); dispatch_sync_f's own width unit is part of the state the theorem quantifies over",
     "kernel: futex_wait may return spuriously, FUTEX_WAKE wakes the sleeper; fair scheduling for the termination clause",
@@ -359,31 +373,69 @@ PC_NAMES = ["PIdle", "PFirst", "PCall", "PInCall", "PNext", "PSub", "PSignal", "
 
 def cut_rounds(allparts):
     """a round = one dispatch_apply = all runs of _dispatch_apply_invoke2 on one record between its allocation and its free.
-    The record's address is reused only after the free, so per (seed, address) the runs sorted by the stamp of their final
-    da_thr_cnt decrement fall into consecutive groups, each ending with the decrement that observed 1.
+    The record's address is reused only after the free, and every run takes its first stamp before its own final decrement, so
+    per (seed, address) the runs sorted by FIRST stamp fall into consecutive groups, one per round (stamps of later events can
+    be arbitrarily late: the ticket is taken after the operation).  The boundaries are found by consistency: a complete round
+    has one caller, one value of da_iterations, final decrements that observed exactly {len, .., 1} and fetch-and-increments
+    that observed exactly {0, .., n + len - 1} (n claims and one overshoot per participant); the list is partitioned into such
+    groups (depth-first: a consistent prefix is a round only if the rest can be partitioned too).
     returns (rounds, problems); round = dict(parts=[...], complete=bool)"""
+    import sys
     by = {}
     for p in allparts:
         by.setdefault((p["seed"], p["base"]), []).append(p)
     rounds, problems = [], []
+
+    def decs(g):
+        return [e.a for q in g for e in q["events"] if e.kind == 7 and e.off == 48]
+
+    def adds(g):
+        return [e.a for q in g for e in q["events"] if e.kind == 6 and e.off == 8]
+
+    def complete(g):
+        if sum(1 for q in g if q["wait"]) != 1 or len(set(q["n"] for q in g)) != 1 or any(q.get("truncated") for q in g):
+            return False
+        d = decs(g)
+        return len(d) == len(g) and sorted(d) == list(range(1, len(g) + 1)) and sorted(adds(g)) == list(range(g[0]["n"] + len(g)))
+
+    def open_ok(g):
+        a = adds(g)
+        # (the last round on a record, unfinished when the recording ended: every increment performed so far is recorded)
+        return sum(1 for q in g if q["wait"]) <= 1 and sorted(a) == list(range(len(a))) and 1 not in decs(g) and \
+            len(set(q["n"] for q in g)) <= 1
+
     for key, ps in by.items():
-        def decseq(p):
-            d = [e for e in p["events"] if e.kind == 7 and e.off == 48]
-            return d[-1].seq if d else p["events"][-1].seq
-        ps.sort(key=decseq)
-        cur = []
-        for p in ps:
-            cur.append(p)
-            decs = [e.a for q in cur for e in q["events"] if e.kind == 7 and e.off == 48]
-            if 1 in decs:
-                if len(decs) == len(cur) and sorted(decs) == list(range(1, len(cur) + 1)):
-                    rounds.append({"parts": cur, "complete": True})
-                else:
-                    problems.append({"what": "the da_thr_cnt decrements of one apply record are not T, T-1, .., 1: %s (%d runs of invoke2)"
-                                             % (sorted(decs, reverse=True)[:20], len(cur)), "detail": {"seed": key[0]}})
-                cur = []
-        if cur and not any(q.get("truncated") for q in cur):
-            rounds.append({"parts": cur, "complete": False})
+        ps.sort(key=lambda p: p["events"][0].seq)
+        memo = {}
+
+        def part(i):
+            if i == len(ps):
+                return []
+            if i in memo:
+                return memo[i]
+            res = None
+            for j in range(i + 1, min(len(ps), i + 70) + 1):
+                if complete(ps[i:j]):
+                    rest = part(j)
+                    if rest is not None:
+                        res = [(i, j, True)] + rest
+                        break
+            if res is None and open_ok(ps[i:]) and len(ps) - i < 70:
+                res = [(i, len(ps), False)]
+            memo[i] = res
+            return res
+        old = sys.getrecursionlimit()
+        sys.setrecursionlimit(max(old, 10000))
+        cuts = part(0)
+        sys.setrecursionlimit(old)
+        if cuts is None:
+            problems.append({"what": "the runs of _dispatch_apply_invoke2 recorded on one record address cannot be partitioned into rounds "
+                                     "(one caller, decrements len..1, increments 0..n+len-1 each): decrements in start order %s"
+                                     % decs(ps)[:60], "detail": {"seed": key[0], "runs": len(ps)}})
+            continue
+        for (i, j, comp) in cuts:
+            if comp or not any(q.get("truncated") for q in ps[i:j]):
+                rounds.append({"parts": ps[i:j], "complete": comp})
     return rounds, problems
 
 
@@ -569,7 +621,27 @@ def global_replay(tag, allparts, budget):
         j["rd"] = rd
         jobs.append(j)
         used += size
-    res = coq_replay(tag, jobs) if jobs else []
+    # vacuity guard: two tampered copies of a recorded round must NOT replay (one helper continuation too few: the last
+    # helper's start is not enabled / the da_thr_cnt values do not fit; the operand of a da_todo subtraction off by one)
+    import copy as _copy
+    base = next((j for j in jobs if len(j["acts"]) == j["T"] and j["T"] >= 3 and j["n"] >= 3), None)
+    tampered = []
+    if base is not None:
+        t1 = dict(base); t1["T"] = base["T"] - 1; t1["selftest"] = "da_thr_cnt one less than the number of participants"
+        t2 = dict(base); t2["acts"] = {p_: list(evs) for p_, evs in base["acts"].items()}
+        t2["selftest"] = "operand of a da_todo subtraction off by one"
+        for p_, evs in t2["acts"].items():
+            k = next((i for i, e in enumerate(evs) if e.kind == 7 and e.off == 16), None)
+            if k is not None:
+                e2 = _copy.copy(evs[k]); e2.b = e2.b + 1; evs[k] = e2
+                tampered = [t1, t2]
+                break
+    res = coq_replay(tag, jobs + tampered) if jobs else []
+    for j, r in zip(tampered, res[len(jobs):]):
+        st["selftest_tampered_rounds_rejected"] = st.get("selftest_tampered_rounds_rejected", 0) + (1 if r[1] != 0 else 0)
+        if r[1] == 0:
+            mism.append({"what": "replay self-test: a tampered round (%s) was accepted by ApplyR.sched: the replay does not "
+                                 "discriminate" % j["selftest"], "detail": {"result": r}})
     for j, r in zip(jobs, res):
         (done, left, index, todo, thrcnt, evt, freed, uaf, dcbad, returned, invbad, invfirst, alldone, nparts, stuck, stuck_left,
          stuck_pc) = r
@@ -663,7 +735,7 @@ def correspond(ctx):
         for p in ps:
             p["seed"] = seed
         allparts += ps
-    gm, gst = global_replay("c10_replay", allparts, 30000 if quick else 300000)
+    gm, gst = global_replay("c10_replay", allparts, 40000 if quick else 300000)
     mism += gm
     dist.update(gst)
     good = [p for p in allparts if not p.get("truncated")]
